@@ -9,6 +9,7 @@ __all__ = [
 ]
 
 import logging
+import struct
 from collections.abc import Sequence
 
 import onnx_ir as ir
@@ -76,9 +77,14 @@ class CommonSubexpressionEliminationPass(ir.passes.InPlacePass):
                 # The attribute value could be directly taken from the original
                 # protobuf, so we need to make a copy of it.
                 value = v.value
-                if v.type in (
+                if v.type is ir.AttributeType.FLOAT:
+                    # 0.0 == -0.0 but they are different constants (1 / x differs):
+                    # compare floats by their bits.
+                    value = _float_bits(value)
+                elif v.type is ir.AttributeType.FLOATS:
+                    value = tuple(_float_bits(x) for x in value)
+                elif v.type in (
                     ir.AttributeType.INTS,
-                    ir.AttributeType.FLOATS,
                     ir.AttributeType.STRINGS,
                 ):
                     # For INT, FLOAT and STRING attributes, we convert them to tuples
@@ -141,6 +147,11 @@ class CommonSubexpressionEliminationPass(ir.passes.InPlacePass):
                 # If it is not, add to the mapping.
                 existing_node_info_to_the_node[node_info] = node
         return modified
+
+
+def _float_bits(value: float) -> bytes:
+    """The bit pattern of a float attribute value, so that 0.0 and -0.0 differ."""
+    return struct.pack("<d", value)
 
 
 def _remove_node_and_replace_values(
